@@ -311,6 +311,21 @@ def gen_case(rng: Rng, max_routers: int = 3) -> dict:
         t.nodes[lan["router"]]["routes"].append({"addr": "172.31.0.0", "mask": "255.255.0.0", "nh": t.nodes[h]["ip"], "metric": 0})
         via_host = [{"op": "ping", "src": x, "dst": "172.31.0.5", "count": 1} for x in hosts[:3]]
         notes["via_host"] = True
+    if nr >= 2 and hosts and rng.chance(1, 6):
+        # a route whose next hop is NOT directly connected (an address in a remote LAN, itself reachable through another route):
+        # look-ups for it go through the route table a second time (RouterARP), the router's own replies through
+        # RouterSessionManager.resolve_outbound_network_interface
+        far = [l for l in t.lans if l["router"] is not None and l["hosts"]]
+        if len(far) >= 2:
+            l1, l2 = rng.shuffle(far)[:2]
+            if l1["router"] != l2["router"]:
+                tgt = t.nodes[l2["hosts"][0]]["ip"] if rng.chance(1, 2) else l2["gw"]
+                t.nodes[l1["router"]]["routes"].append({"addr": "172.29.0.0", "mask": "255.255.0.0", "nh": tgt, "metric": 0})
+                via_host += [{"op": "ping", "src": x, "dst": "172.29.0.5", "count": 1} for x in l1["hosts"][:2] + l2["hosts"][:1]]
+                via_host += [{"op": "ping", "src": l2["hosts"][0], "dst": l1["gw"], "count": 1}]
+                notes["recursive_nh"] = True
+                if tgt != l2["gw"]:
+                    notes["via_host"] = True
     if len(hosts) >= 2 and rng.chance(1, 8):
         # misconfiguration: a host whose default gateway is another host on its LAN
         lan = rng.choice([l for l in t.lans if len(l["hosts"]) >= 2] or [None])
@@ -404,6 +419,11 @@ def gen_case(rng: Rng, max_routers: int = 3) -> dict:
             if pairs:
                 for a, b in rng.shuffle(pairs)[:2]:
                     extra.append({"op": "ping", "src": a, "dst": t.nodes[b]["ip"], "count": 1})
+            if hosts:
+                # the router itself must answer (ARP reply, echo reply) while one of its ports is down: its own
+                # resolve_outbound_network_interface may have to fall back to a route whose next hop lies behind the dead port
+                for prt in rng.shuffle([x for x in t.nodes[r]["ports"] if x])[:3]:
+                    extra.append({"op": "ping", "src": rng.choice(hosts), "dst": prt["ip"], "count": 1})
             extra.append({"op": "enable", "node": r, "ifc": i})
         elif k == 2:
             n = rng.below(len(t.nodes))
@@ -494,7 +514,12 @@ def model_lines(case: dict) -> Tuple[List[str], List[int]]:
             lines.append(f"setflag {n}")
     lines.append("goodstate")
     op_pos = []
+    probes = 0
     for op in case["ops"]:
+        if op["op"] == "ping" and probes < 2:
+            # nesting budget this ping needs (state untouched); read by the check as evidence for / instance of the fuel bound theorem
+            lines.append(f"needfuel {op['src']} {op['dst']} {op['count']}")
+            probes += 1
         op_pos.append(len(lines))
         if op["op"] == "ping":
             lines.append(f"ping {op['src']} {op['dst']} {op['count']}")
